@@ -157,8 +157,13 @@ def landscapes_and_tables(spec_cases: list[dict]) -> dict:
     out = {'id': 'landscapes', 'bad': [], 'drift': []}
     objs = {
         'HealpixLandscape': [L.HealpixLandscape(2, 'IQU', np.float32), L.HealpixLandscape(1, 'I', np.float32),
-                             L.HealpixLandscape(4, 'QU', np.float32)],
-        'FrequencyLandscape': [L.FrequencyLandscape(2, jnp.array([10.0, 20.0]), 'QU', np.float32)],
+                             L.HealpixLandscape(4, 'QU', np.float32),
+                             # the default dtype (float64) and other declared dtypes, whatever the 64-bit mode of JAX
+                             L.HealpixLandscape(2, 'IQU'), L.HealpixLandscape(1, 'IQUV', np.float64),
+                             L.HealpixLandscape(2, 'I', np.float16), L.HealpixLandscape(1, 'QU', jnp.float64)],
+        'FrequencyLandscape': [L.FrequencyLandscape(2, jnp.array([10.0, 20.0]), 'QU', np.float32),
+                               L.FrequencyLandscape(1, jnp.array([30.0]), 'IQU'),
+                               L.FrequencyLandscape(1, jnp.array([30.0, 40.0, 50.0]), 'I', np.float64)],
     }
     spec_l = {c['cls']: c for c in spec_cases if not c['is_op']}
     for name, insts in objs.items():
@@ -286,8 +291,11 @@ def run(tier: str, seed: int) -> int:
         n += len(res)
         sample.append({'names': sub[0]['names'], 'obs': res[0]})
     lres = fx.replay('c18', 'landscapes_and_tables', [spec.cases], procs=1)[0]
+    lres64 = fx.replay('c18', 'landscapes_and_tables', [spec.cases], x64=True, procs=1)[0]
     for b in lres['bad']:
         verd.report(b, b.split(':')[0], {'landscape': b.split(':')[1]}, lres)
+    for b in lres64['bad']:
+        verd.report(b + ':x64', b.split(':')[0], {'landscape': b.split(':')[1], 'x64': True}, lres64)
     rc = verd.finish()
     missing = sorted(set(KIND_TO_CLASS.values()) - classes_seen)
     fx.write_evidence(PROP, tier, seed, {
@@ -313,7 +321,7 @@ def replay_file(path: str) -> int:
     case = doc['case'] if 'case' in doc else doc
     if 'landscape' in case:
         spec = fx.run_tlc('MC_Pytree', CFG, workers=2)
-        r = fx.replay('c18', 'landscapes_and_tables', [spec.cases], procs=1)[0]
+        r = fx.replay('c18', 'landscapes_and_tables', [spec.cases], x64=bool(case.get('x64')), procs=1)[0]
         print(json.dumps(r, indent=1))
         if r['bad']:
             print(f'VIOLATION property={PROP} replay={path}')
